@@ -204,6 +204,9 @@ func genCase(r *vrand.R, k int) In {
 		return d
 	}
 	nd := r.Range(5, 40)
+	if r.Bool() {
+		nd = r.Range(5, 16)
+	}
 	for i := 0; i < nd; i++ {
 		in.Ops = append(in.Ops, mkDoc(fmt.Sprintf("d%03d", i)))
 	}
@@ -217,29 +220,31 @@ func genCase(r *vrand.R, k int) In {
 	}
 	in.Batch = vrand.Pick(r, []int{1, 2, 3, 5, 8, 100})
 
-	switch r.Intn(8) {
-	case 0, 1:
+	switch r.Intn(16) {
+	case 0, 1, 2, 3, 4:
 		in.Query = QueryIn{Kind: "all"}
-	case 2, 3:
+	case 5, 6, 7, 8:
 		in.Query = QueryIn{Kind: "term", Must: vrand.Pick(r, []string{"a", "b"})}
-	case 4, 5:
+	case 9, 10, 11:
 		q := QueryIn{Kind: "bool", Must: vrand.Pick(r, []string{"a", "b"})}
 		if r.Bool() {
 			q.Should = []string{vrand.Pick(r, wPool)}
 		}
-		if r.Chance(2, 3) {
+		if r.Chance(1, 2) {
 			q.MustNot = vrand.Pick(r, wPool)
 		}
 		in.Query = q
-	case 6:
+	case 12, 13:
 		ws := append([]string{}, wPool...)
 		vrand.Shuffle(r, ws)
 		in.Query = QueryIn{Kind: "disj", Should: ws[:r.Range(1, 2)]}
+	case 14:
+		in.Query = QueryIn{Kind: "term", Must: "c"}
 	default:
-		if r.Chance(1, 4) {
+		if r.Chance(1, 2) {
 			in.Query = QueryIn{Kind: "none"}
 		} else {
-			in.Query = QueryIn{Kind: "term", Must: "c"}
+			in.Query = QueryIn{Kind: "all"}
 		}
 	}
 
@@ -338,7 +343,7 @@ func genCase(r *vrand.R, k int) In {
 	sorts := [][]string{nil, nil, {"-_id"}, {"_id"}, {"tag", "_id"}, {"-tag", "-_id"}, {"-n", "_id"}, {"n"}, {"dt", "-_id"}, {"-_score", "_id"}, {"q", "tag", "n"}}
 	for j, m := 0, r.Range(2, 4); j < m; j++ {
 		ru := RunIn{
-			Size: vrand.Pick(r, []int{0, 1, 2, 3, 5, 10, nd, nd + 7}),
+			Size: vrand.Pick(r, []int{0, 1, 2, 3, 4, 6, nd, nd + 7}),
 			From: vrand.Pick(r, []int{0, 0, 0, 1, 3, 11, nd}),
 			Sort: vrand.Pick(r, sorts),
 		}
@@ -579,6 +584,20 @@ func runTerm(fi FacetIn, obs cf.T) cf.T {
 	return cf.App("RTerms", cf.Int(fi.Size), cf.Str(fi.Prefix), rx, obs)
 }
 
+func matchBucket(n int) string {
+	switch {
+	case n == 0:
+		return "0"
+	case n < 4:
+		return "1-3"
+	case n < 8:
+		return "4-7"
+	case n < 16:
+		return "8-15"
+	}
+	return "16+"
+}
+
 func fail(kind, detail string) vh.Result {
 	return vh.Result{Direct: &vh.Direct{Kind: kind, Detail: detail}}
 }
@@ -658,7 +677,7 @@ func exec(in In) vh.Result {
 	}
 
 	hist := []string{"engine:" + in.Engine, fmt.Sprintf("docvalues:%v", in.DocValues), "query:" + in.Query.Kind,
-		fmt.Sprintf("matches:%d", nm/8*8)}
+		"matches:" + matchBucket(nm)}
 	var runs []cf.T
 	partial := false
 	for ri, ru := range in.Runs {
